@@ -16,7 +16,7 @@ def eval {α : Type} (now : Time) : Prog α → Db → Seqs → Option (α × Db
     | (_, .error _) => none
     | (sq', .ok (r, d')) => eval now (k r) d' sq'
 
-theorem run_ok_eval {α : Type} (now : Time) (hn : String) (f : Option Fault) (p : Prog α) (st st' : RunSt) (a : α)
+theorem run_ok_eval {α : Type} (now : Time) (hn : String) (f : Faults) (p : Prog α) (st st' : RunSt) (a : α)
     (h : run now hn f p st = (.ok a, st')) : eval now p st.db st.seq = some (a, st'.db, st'.seq) := by
   induction p generalizing st with
   | pure x => simp only [run, Prod.mk.injEq, Except.ok.injEq] at h; obtain ⟨rfl, rfl⟩ := h; rfl
